@@ -23,7 +23,7 @@ def universe(rng):
     g = docs.Gen(rng, hostile=0.15, rich=0.55)
     v = rng.choice(['1.1', '1.3'])
     a1 = g.lexicon('a', '1', v, n_syn=rng.randint(2, 4), n_ent=rng.randint(2, 4))
-    ax = g.extension('ax', a1, '1', v, with_forms=False)
+    ax = g.extension('ax', a1, '1', v, with_forms=rng.random() < 0.6)
     axx = g.extension('axx', ax, '1', v)
     a2 = g.lexicon('a', '2', v, n_syn=rng.randint(1, 3), n_ent=rng.randint(1, 3))     # same id prefix: ids repeat across versions
     d = g.lexicon('d', '1', v, n_syn=2, n_ent=2, requires=[{'id': 'a', 'version': '1'}, {'id': 'u', 'version': '9'}])
@@ -85,6 +85,17 @@ def gen_history(rng, maxlen):
                         row['definition'] = rng.choice(['an ili definition', 'another one', ''])
                 rows.append(row)
             ops.append({'k': 'ili', 'rows': rows})
+        ops.append({'k': 'obs'})
+    if rng.random() < 0.35:
+        # a base, its extension (with forms, senses, examples … on external entries), and the extension removed again
+        for s in ('a:1', 'ax:1'):
+            if s not in inst:
+                ops.append({'k': 'add', 'res': docs.resource([U[s][0]], U[s][1])})
+                inst.append(s)
+        ops.append({'k': 'obs'})
+        gone = [s for s in ('ax:1', 'axx:1') if s in inst]
+        ops.append({'k': 'remove', 'spec': 'ax:1', 'gone': sorted(gone)})
+        inst = [s for s in inst if s not in gone]
         ops.append({'k': 'obs'})
     return {'ops': ops, 'batch': rng.choice([None, 2, 5])}
 
